@@ -184,6 +184,33 @@ def exhaustive_small(out, stats):
                     stats["exhaustive_small"] += 1
 
 
+def race_cases(r, stats, n):
+    """stop / close / close+remove issued with NO waiting for the disk thread (ops s x z) after k controlled
+    deliveries or straight after hash_check, on torrents with more pieces (the hashing thread is busy), then re-check"""
+    out = []
+    for _ in range(n):
+        pl, files, total = layout(r, max_pieces=r.choice([6, 12, 24]))
+        np_ = (total + pl - 1) // pl
+        pert = perturb(r, pl, files, total, stats, calm=True)
+        order = list(range(np_))
+        r.shuffle(order)
+        ds = ["D%d" % i for i in order[:r.choice([0, 0, 1, 2, np_ // 2])]]
+        c = r.random()
+        if c < 0.3:
+            ops = ["O", "C"] + ds + ["s", "C", r.choice("wW")]
+        elif c < 0.55:
+            ops = ["O", "C"] + ds + ["x", "O", "C", "w"]
+        elif c < 0.8:
+            ops = ["O", "C"] + ds + ["z"]
+        elif c < 0.9:
+            ops = ["O", "C", "s", "C", "s", "C", "x", "O", "C", "z"]
+        else:
+            ops = ["O", "C", "w", "x", "O", "C", "s", "x"]
+        out.append(fmt(pl, r.randint(1, 9), files, pert, ops))
+        stats["race_stop_close_remove"] += 1
+    return out
+
+
 def zero_tail_cases(r, stats, n):
     """files whose described content ends in zeros, truncated inside their last 4 KiB page (and just outside it):
     a mapping that reaches past EOF into the zero-filled rest of the page must not count as data on disk"""
@@ -214,7 +241,7 @@ def gen(seed, tier):
     stats = {k: 0 for k in ["file_missing", "file_nodir", "file_truncated", "file_extended", "file_unreadable",
                             "file_intact", "byte_flips", "bad_expected", "pat_full", "pat_full_free",
                             "pat_stop_after_k", "pat_close_after_k", "pat_quick", "pat_stop_twice", "pat_random",
-                            "exhaustive_small", "corpus", "hand", "stop_every_k", "zero_tail_truncation"]}
+                            "exhaustive_small", "corpus", "hand", "stop_every_k", "zero_tail_truncation", "race_stop_close_remove"]}
     cases = []
     cdir = os.path.join(os.path.dirname(os.path.dirname(os.path.abspath(__file__))), "corpus", "C09")
     for f in sorted(glob.glob(os.path.join(cdir, "*.case"))):
@@ -243,6 +270,7 @@ def gen(seed, tier):
             end = r.choice([["S", "C", "W"], ["X", "O", "C", "W"], ["s", "C", "w"], ["x"]])
             cases.append(fmt(pl, sd, files, pert, ["O", "C"] + ds + end)); stats["stop_every_k"] += 1
     cases += zero_tail_cases(r, stats, 60 if tier == "quick" else 600)
+    cases += race_cases(r, stats, 400 if tier == "quick" else 4000)
     if tier != "quick":
         exhaustive_small(cases, stats)
     return cases, stats
